@@ -147,13 +147,13 @@ type UCall struct {
 }
 
 type UDPRec struct {
-	Client string
-	Key    string
-	At     time.Duration
-	At2    time.Duration // after the wrapped AddUDPNatEntry returned
+	Client        string
+	Key           string
+	At            time.Duration
+	At2           time.Duration // after the wrapped AddUDPNatEntry returned
 	RemAt, RemAt2 time.Duration
-	Calls  []UCall
-	inner  service.UDPConnMetrics
+	Calls         []UCall
+	inner         service.UDPConnMetrics
 }
 
 func (r *UDPRec) count(kind string) int {
@@ -249,7 +249,8 @@ type fakeIPInfo struct {
 func (f *fakeIPInfo) GetIPInfo(ip net.IP) (ipinfo.IPInfo, error) {
 	f.Asked = append(f.Asked, ip.String())
 	if f.Errs[ip.String()] {
-		return ipinfo.IPInfo{}, errors.New("db lookup failed")
+		// possibly a partial failure: some fields filled in, plus an error
+		return f.Answers[ip.String()], errors.New("db lookup failed")
 	}
 	return f.Answers[ip.String()], nil
 }
@@ -259,18 +260,18 @@ func (f *fakeIPInfo) GetIPInfo(ip net.IP) (ipinfo.IPInfo, error) {
 // tcpServer is one real StreamHandler (or full Service) served by the real
 // StreamServe loop over a shared listener obtained from the real ListenerManager.
 type tcpServer struct {
-	rc      *RunCtx
-	W       *simnet.World
-	IP      net.IP
-	Port    int
-	Ciphers service.CipherList
-	Replay  *service.ReplayCache
-	M       *RecMetrics
-	Timeout time.Duration
-	ln      service.StreamListener
-	Served  bool // StreamServe returned
-	handlersAtReturn int // connection handlers still alive when it returned
-	handler service.StreamHandler
+	rc               *RunCtx
+	W                *simnet.World
+	IP               net.IP
+	Port             int
+	Ciphers          service.CipherList
+	Replay           *service.ReplayCache
+	M                *RecMetrics
+	Timeout          time.Duration
+	ln               service.StreamListener
+	Served           bool // StreamServe returned
+	handlersAtReturn int  // connection handlers still alive when it returned
+	handler          service.StreamHandler
 }
 
 type tcpServerOpts struct {
